@@ -126,6 +126,8 @@ def check_tables(rep, repo, rule='C16.R8'):
 def run(rep, repo, tier):
     for k, v in RULES.items():
         rep.rule(k, v)
+    from ..defined import check_defined
+    check_defined(rep, repo, 'C16.R5', [repo.method('Solver', '__init__'), repo.method('Solver', 'solve'), repo.method('Solver', 'get_results_short'), repo.method('Solver', 'get_results_long')], 'solver path')
     rep.assumptions += ['A5 argparse contracts (store default None, nargs=+ yields a list, parser.error does not return)']
     pf = parser_facts(repo)
     ks = kind_subst(pf)
